@@ -1,0 +1,46 @@
+// +build verif
+
+package pdnode_coord
+
+import (
+	"time"
+
+	"github.com/youzan/ZanRedisDB/cluster"
+)
+
+// Exported wrappers for the simulation harness. Only compiled with the verif
+// build tag.
+
+// VerifGetRebalancedNamespacePartitions is the unexported layout function the
+// placement driver uses for fresh layouts, migration and balancing.
+func VerifGetRebalancedNamespacePartitions(ns string, partitionNum int, replica int,
+	oldPartitionNodes [][]string, currentNodes map[string]cluster.NodeInfo, balanceVer string) ([][]string, *cluster.CoordErr) {
+	return getRebalancedNamespacePartitions(ns, partitionNum, replica, oldPartitionNodes, currentNodes, balanceVer)
+}
+
+// VerifIntervals are the package-level timing knobs of the coordinator.
+type VerifIntervals struct {
+	WaitMigrate            time.Duration
+	WaitRemoveRemovingNode time.Duration
+	NsCheck                time.Duration
+	NsCheckLearner         time.Duration
+	BalanceCheck           time.Duration
+	CheckRemovingNode      time.Duration
+}
+
+// VerifGetIntervals returns the current values.
+func VerifGetIntervals() VerifIntervals {
+	return VerifIntervals{waitMigrateInterval, waitRemoveRemovingNodeInterval, nsCheckInterval,
+		nsCheckLearnerInterval, balanceCheckInterval, checkRemovingNodeInterval}
+}
+
+// VerifSetIntervals sets them (like ChangeIntervalForTest, but reversible).
+// Must only be called while no coordinator is running.
+func VerifSetIntervals(v VerifIntervals) {
+	waitMigrateInterval = v.WaitMigrate
+	waitRemoveRemovingNodeInterval = v.WaitRemoveRemovingNode
+	nsCheckInterval = v.NsCheck
+	nsCheckLearnerInterval = v.NsCheckLearner
+	balanceCheckInterval = v.BalanceCheck
+	checkRemovingNodeInterval = v.CheckRemovingNode
+}
